@@ -389,11 +389,23 @@ def check_snapshot(rc, sn, recs, offered, ret_at):
         # un-acknowledged complete lines must come from a write call already entered
         cid = call_of(rc, r)
         if not (cid in ret_at and ret_at[cid] < sn.stamp):
-            if not any(st < sn.stamp and w == raw + b"\n" for st, w in f.invoked):
+            if not any(st < sn.stamp and (w == raw + b"\n" or (b"\n" + w).find(b"\n" + raw + b"\n") >= 0)
+                       for st, w in f.invoked):
                 raise Violation(("phantom_line", {"at": sn.tag}),
                                 "crash@%s: line %d is on disk although no write of it had started" % (sn.tag, i))
     if tail:
-        if not any(st < sn.stamp and w.startswith(tail) for st, w in f.invoked):
+        # (a prefix of an in-flight write, or -- when one write call carries several lines -- of what follows
+        # one of its line breaks)
+        def starts_a_line_of(w):
+            if w.startswith(tail):
+                return True
+            i = w.find(b"\n")
+            while i >= 0:
+                if w.startswith(tail, i + 1):
+                    return True
+                i = w.find(b"\n", i + 1)
+            return False
+        if not any(st < sn.stamp and starts_a_line_of(w) for st, w in f.invoked):
             raise Violation(("garbage_tail", {"at": sn.tag}),
                             "crash@%s: trailing fragment %r is not a prefix of an in-flight write" % (sn.tag, tail[:80]))
     # every acknowledged message is there
